@@ -886,9 +886,18 @@ def run_c05(ctx, rng, job):
             prov = rng.choice(w.P + [Interface])
         return (ep, ri, req, prov, rng.choice(['', 'a']), obs)
 
+    followup = []
+
     def mutate():
         k = rng.choice(MUTATION_KINDS + ['register', 'subscribe'])
         ri = rng.randrange(len(w.regs))
+        if followup and rng.random() < 0.6:
+            # right after a registry was re-based (and the keys were asked again): a change in one of its *new*
+            # ancestors - the descendants have to notice changes along the new chain, not the old one
+            k = rng.choice(['register', 'subscribe', 'register'])
+            ri = rng.choice(followup)
+            ctx.count('mutations_in_a_newly_acquired_ancestor')
+        del followup[:]
         ar = rng.choice([0, 1, 1, 1, 2, 2])
         req = tuple(rng.choice(w.keyspecs()) for _ in range(ar))
         prov = rng.choice(w.P)
@@ -918,6 +927,9 @@ def run_c05(ctx, rng, job):
             except TypeError:
                 return None
             e = (i, 'bases', idx)
+            # the new bases and everything above them
+            for j in idx:
+                followup.extend(w.index_of(r) for r in w.regs[j].ro)
         elif k == 'spec_bases':
             if len(w.R) < 2:
                 return None
